@@ -21,6 +21,7 @@ import (
 	"io"
 	"log/slog"
 	"strings"
+	"sync"
 	"sync/atomic"
 	"time"
 
@@ -161,6 +162,7 @@ type db struct {
 	log                   *slog.Logger
 	notificationsEnabled  bool
 	sequenceWaiterTracker SequenceWaiterTracker
+	sequenceUpdatesLock   sync.Mutex
 
 	putCounter                metric.Counter
 	deleteCounter             metric.Counter
@@ -246,6 +248,18 @@ func (d *db) ProcessWrite(b *proto.WriteRequest, commitOffset int64, timestamp u
 	timer := d.batchWriteLatencyHisto.Timer()
 	defer timer.Done()
 
+	// The keys generated for sequence puts are announced to the sequence waiters only once the batch
+	// is committed. Applying the request replaces the prefix in the put with the generated key.
+	var sequencePrefixes map[int]string
+	for i, putReq := range b.Puts {
+		if len(putReq.GetSequenceKeyDelta()) > 0 {
+			if sequencePrefixes == nil {
+				sequencePrefixes = map[int]string{}
+			}
+			sequencePrefixes[i] = putReq.Key
+		}
+	}
+
 	batch := d.kv.NewWriteBatch()
 	notifications, res, err := d.applyWriteRequest(b, batch, commitOffset, timestamp, updateOperationCallback)
 	if err != nil {
@@ -267,8 +281,27 @@ func (d *db) ProcessWrite(b *proto.WriteRequest, commitOffset int64, timestamp u
 		}
 	}
 
+	if sequencePrefixes != nil {
+		// A new waiter reads the committed state and must not interleave with commit-and-announce,
+		// or it would keep an older key than the one it is never told about
+		d.sequenceUpdatesLock.Lock()
+	}
+
 	if err := batch.Commit(); err != nil {
+		if sequencePrefixes != nil {
+			d.sequenceUpdatesLock.Unlock()
+		}
 		return nil, err
+	}
+
+	if sequencePrefixes != nil {
+		for i, putReq := range b.Puts {
+			// In the order of the request: the last key generated for a prefix is the latest
+			if prefixKey, ok := sequencePrefixes[i]; ok && res.Puts[i].Status == proto.Status_OK {
+				d.sequenceWaiterTracker.SequenceUpdated(prefixKey, putReq.Key)
+			}
+		}
+		d.sequenceUpdatesLock.Unlock()
 	}
 
 	if notifications != nil {
@@ -311,6 +344,9 @@ func (d *db) Get(request *proto.GetRequest) (*proto.GetResponse, error) {
 
 func (d *db) GetSequenceUpdates(prefixKey string) (SequenceWaiter, error) {
 	d.getSequenceUpdatesCounter.Add(1)
+
+	d.sequenceUpdatesLock.Lock()
+	defer d.sequenceUpdatesLock.Unlock()
 
 	sw := d.sequenceWaiterTracker.AddSequenceWaiter(prefixKey)
 
@@ -513,10 +549,8 @@ func (d *db) applyPut(batch WriteBatch, notifications *notifications, putReq *pr
 	var err error
 	var newKey string
 	if len(putReq.GetSequenceKeyDelta()) > 0 {
-		prefixKey := putReq.Key
 		newKey, err = generateUniqueKeyFromSequences(batch, putReq)
 		putReq.Key = newKey
-		d.sequenceWaiterTracker.SequenceUpdated(prefixKey, newKey)
 	} else if !internal {
 		se, err = checkExpectedVersionId(batch, putReq.Key, putReq.ExpectedVersionId)
 	}
